@@ -342,13 +342,19 @@ fn step_timeout_k1<const DUE0: bool, const MECH: u8, const RELIABLE: bool>() {
         // the single entry sits in slot 0
         RTO_ANS[0] = any_rto_answer();
         AENV.violated_marker = kani::any();
+        AENV.marker_calls = 0;
     }
+    // the mechanism's marker ("a response of this request failed its integrity check") before the call;
+    // the query that reads it consumes it, as the real TransportIntegrity does
+    let marker = unsafe { AENV.violated_marker };
     let t = t0 + any_offset(70);
     client.on_timeout(t);
     let n = committed(&mut client);
     assert!(n == nrec(), "events: every pushed event is committed");
     let ans = unsafe { RTO_ANS[0] };
-    let marker = unsafe { AENV.violated_marker };
+    if !DUE0 || ans.is_some() {
+        assert!(unsafe { AENV.violated_marker } == marker && unsafe { AENV.marker_calls } == 0, "C07/C17: the protection-violated marker is kept until the request's final time-out");
+    }
     if !DUE0 {
         assert!(unsafe { RTO_CALLS } == 0, "C06: no schedule step before the deadline");
         assert!(client.transactions.len() == 1 && g_count() == 1);
